@@ -23,8 +23,8 @@ typedef struct HState {
 	char failmsg[300];
 } HState;
 
-#define NSTART 7
-static const char *start_name[NSTART] = { "empty", "1x1", "testsuite3x2", "ranged2x2", "degenerate3x3", "infeasible2x2", "singleton3x3" };
+#define NSTART 8
+static const char *start_name[NSTART] = { "empty", "1x1", "testsuite3x2", "ranged2x2", "degenerate3x3", "infeasible2x2", "singleton3x3", "mip3x2-read" };
 
 static void Q (mpq_t q, const char *s) { q_set_str (q, s); }
 static void m_col (RefLP * M, const char *obj, const char *lo, const char *up, const char *name)
@@ -72,6 +72,14 @@ static RefLP *make_start (int s)
 		const char *r1[] = { "1", "1" };
 		m_row (M, 'L', "1", NULL, "c1", r1); m_row (M, 'G', "2", NULL, "c2", r1); return M;
 	}
+	case 7: {
+		/* the problem with integer markers that build_start() reads from LP text (the only public way to get markers) */
+		M = ref_new (REF_MAX);
+		m_col (M, "3", "2", NULL, "x"); m_col (M, "2", NULL, NULL, "y"); m_col (M, "4", "1", "10", "z");
+		const char *r1[] = { "3", "2", "1" }, *r2[] = { "5", "1", "0" };
+		m_row (M, 'L', "12", NULL, "c1", r1); m_row (M, 'E', "10", NULL, "c2", r2);
+		M->isint[0] = 1; M->isint[2] = 1; return M;
+	}
 	default: {
 		/* a column whose only entry sits in the last row, stored right after a column that does not touch that row */
 		M = ref_new (REF_MAX);
@@ -80,6 +88,18 @@ static RefLP *make_start (int s)
 		m_row (M, 'L', "4", NULL, "c1", r1); m_row (M, 'L', "1", NULL, "c2", r2); m_row (M, 'L', "3", NULL, "c3", r3); return M;
 	}
 	}
+}
+
+static mpq_QSprob build_start (int start, const RefLP * M)
+{
+	if (start != 7) return qsx_build (M, start == 3 ? ROUTE_ROWS : ROUTE_LOAD, 0);
+	static const char *txt = "Maximize\n obj: 3 x + 2 y + 4 z\nSubject To\n c1: 3 x + 2 y + z <= 12\n c2: 5 x + y = 10\nBounds\n 2 <= x\n y free\n 1 <= z <= 10\nInteger\n x z\nEnd\n";
+	FILE *f = fopen ("start7.lp", "w");
+	if (!f) return NULL;
+	fputs (txt, f); fclose (f);
+	mpq_QSprob p = mpq_QSread_prob ("start7.lp", "LP");
+	unlink ("start7.lp");
+	return p;
 }
 
 /* ------------------------------------------------------------ op table */
@@ -481,7 +501,7 @@ static void hist_run (long item)
 	S.M = make_start (start);
 	S.edited_since_solve = 1;
 	sb_printf (&S.desc, "start=%s", start_name[start]);
-	S.p = qsx_build (S.M, start == 3 ? ROUTE_ROWS : ROUTE_LOAD, 0);
+	S.p = build_start (start, S.M);
 	char why[700];
 	int stop = 0;
 	if (!S.p) { viol ("C06", "start-build-failed", "could not build start problem %s", start_name[start]); stop = 1; }
@@ -886,7 +906,7 @@ static void inv_run (long item)
 	qsx_start ();
 	S.M = make_start (start); S.edited_since_solve = 1;
 	sb_printf (&S.desc, "start=%s", start_name[start]);
-	S.p = qsx_build (S.M, start == 3 ? ROUTE_ROWS : ROUTE_LOAD, 0);
+	S.p = build_start (start, S.M);
 	int stop = !S.p;
 	char why[700], what[300];
 	for (int i = 0; i < plen && !stop; i++) {
@@ -998,7 +1018,7 @@ static void copy_run (long item)
 	qsx_start ();
 	char why[700];
 	S[0].M = make_start (start); S[0].edited_since_solve = 1;
-	S[0].p = qsx_build (S[0].M, start == 3 ? ROUTE_ROWS : ROUTE_LOAD, 0);
+	S[0].p = build_start (start, S[0].M);
 	sb_printf (&hist, "start=%s", start_name[start]);
 	int stop = !S[0].p;
 	if (!stop && pre < n_full) {
